@@ -415,7 +415,7 @@ class Ctx:
         if smt.is_true(goal):
             self.trivial.append(label)
             return
-        if goal.conj and len(goal.conj) > 1:
+        if isinstance(goal.conj, list) and len(goal.conj) > 1:
             # a conjunction is proved conjunct by conjunct (earlier conjuncts become hypotheses of later ones)
             hyps = list(pc)
             for k, g in enumerate(goal.conj):
@@ -612,7 +612,7 @@ class State:
             return self
         s = self.copy()
         # conjunctions are kept as separate hypotheses (smaller asserts; enables relevance filtering)
-        s.pc = self.pc + tuple(t.conj if t.conj else [t])
+        s.pc = self.pc + tuple(t.conj if isinstance(t.conj, list) and t.conj else [t])
         return s
 
     def harr(self, ctx, cls, f):
@@ -745,6 +745,7 @@ class Engine:
         self.cur_func = None
         self.loop_counter = 0
         self.loop_stack = []
+        self.old_stack = []          # (marker name, pre-state, pre-env) for old(...) / _pre(...)
         self.cur_func_node = None
         self.cur_class = None
         self.spec_sides = None          # list collecting (cond T, exc name) in code mode
@@ -1125,6 +1126,8 @@ class Engine:
                     start = ast.literal_eval(gen_iter.args[1])
                 if not isinstance(xs, VList):
                     raise Unsupported("enumerate over non-list")
+                if xs.n.s == "0":
+                    return []
                 i = c.bvar("i", "Int")
                 v = VTuple([VInt(Add(i, Int(start))), xs.at(i)])
                 return [([i], And(Le(Int(0), i), Lt(i, xs.n)), self.bind_target(target, v))]
@@ -1158,6 +1161,8 @@ class Engine:
         explicit description are enumerated part by part, so every part is indexed by its own variable."""
         if isinstance(xs, VOpt):
             xs = xs.val
+        if isinstance(xs, VList) and xs.n.s == "0":
+            return []          # iteration over a literally empty list: no sources
         if isinstance(xs, VList) and xs.parts is not None:
             out = []
             for off, sub in xs.parts:
@@ -1270,6 +1275,8 @@ class Engine:
                 src = self.ev(g.iter, env, st)
             if isinstance(src, VOpt):
                 src = src.val
+            if isinstance(src, VList) and src.n.s == "0":
+                return src
             if isinstance(src, VList):
                 def at(i, src=src):
                     env2 = dict(env)
@@ -1397,6 +1404,30 @@ class Engine:
                 vs, g, x = self.iter_value(xs)
                 t = truthy(c, x)
                 return VBool(ForAll(vs, Implies(g, t)) if name == "all" else Exists(vs, And(g, t)))
+            if self.old_stack and name == self.old_stack[-1][0] and len(node.args) == 1:
+                marker, pre_state, pre_env = self.old_stack[-1]
+                env2 = dict(pre_env) if pre_env is not None else {}
+                env2.update(env)       # bound variables and lets of the enclosing scope
+                if pre_env is not None:
+                    # names of the function's parameters denote their entry values
+                    for k_, v_ in pre_env.items():
+                        if k_ in self.fn_pre_env:
+                            env2[k_] = v_
+                self.old_stack.append(("\0none", None, None))     # no nested old()
+                try:
+                    return self.ev(node.args[0], env2, pre_state)
+                finally:
+                    self.old_stack.pop()
+            if name in ("_fresh", "_alloc") and len(node.args) == 1:
+                v = self.unopt(self.ev(node.args[0], env, st))
+                if not isinstance(v, VRef):
+                    raise Unsupported(name + " of a non-reference")
+                if name == "_alloc":
+                    return VBool(st.is_alloc(c, v))
+                return VBool(Not(self.fn_pre.is_alloc(c, v)))
+            if name == "_frame" and not node.args:
+                # every object allocated at function entry still has its entry field values
+                return VBool(And(*[cond for _, cond in self.frame_condition([], self.fn_pre, st)]))
             if name == "len" and len(node.args) == 1:
                 v = self.ev(node.args[0], env, st)
                 if isinstance(v, VStr):
